@@ -305,7 +305,7 @@ func c03Run(cfg foConfig, cell c03Cell, rng *rand.Rand, ctxVariant string, hosti
 	}()
 	select {
 	case <-returned:
-	case <-time.After(20 * time.Second):
+	case <-time.After(6 * time.Second):
 		// a lone Get with an instant builder: it can only be waiting for a key lock nobody is going to release
 		if lk := r.fo.LockedKeys(); len(lk) > 0 {
 			return c03Obs{Result: "blocked-on-leftover-key-lock", Backend: "-", Locked: len(lk)}, r
